@@ -35,7 +35,10 @@ func drawArbRings(t *rapid.T, maxLen int) (rings [][]P, kinds string) {
 	nr := rapid.SampledFrom([]int{1, 1, 1, 2, 2, 3, 4}).Draw(t, "rings")
 	for r := 0; r < nr; r++ {
 		var ring []P
-		kind := rapid.SampledFrom([]string{"scribble", "scribble", "word", "word", "uniform", "tiny", "valid"}).Draw(t, "ringKind")
+		kind := rapid.SampledFrom([]string{"scribble", "scribble", "word", "word", "uniform", "tiny", "valid", "frame"}).Draw(t, "ringKind")
+		if kind == "frame" && r > 0 {
+			kind = "scribble"
+		}
 		switch kind {
 		case "scribble":
 			w := rapid.Int64Range(1, 6).Draw(t, "wpx") * q
@@ -59,6 +62,13 @@ func drawArbRings(t *rapid.T, maxLen int) (rings [][]P, kinds string) {
 			}
 		case "valid":
 			ring = gen.Grow(t, rapid.Int64Range(1, 8).Draw(t, "wpx")*q, rapid.IntRange(3, min(maxLen, 30)).Draw(t, "n"))
+		case "frame": // shell and hole that snap to the same ring when the frame is thinner than a pixel
+			fr := gen.Annulus(t, q)
+			rings = append(rings, fr[0], fr[1])
+			kinds += "frame,"
+			nr = min(nr, 3)
+			r++
+			continue
 		}
 		if r > 0 && len(ring) > 0 && rapid.Bool().Draw(t, "shiftRing") {
 			dx, dy := rapid.Int64Range(0, 4*q).Draw(t, "dx"), rapid.Int64Range(0, 4*q).Draw(t, "dy")
